@@ -78,13 +78,15 @@ structure St where
   sleeps : List Val := []
   nextExc : Nat := 0
   rnd : List Num := []             -- scripted `random.uniform` fractions
+  ood : Bool := false              -- the run left the modelled domain (driver rejects)
   deriving Repr, Inhabited
 
 abbrev Body := St → St × Res
 
 /-- Raise a fresh exception object. -/
 def raiseNew (s : St) (name msg : String) : St × Res :=
-  ({ s with nextExc := s.nextExc + 1 }, .err ⟨s.nextExc, name, msg⟩ false)
+  ({ s with nextExc := s.nextExc + 1, ood := s.ood || name == "OutOfDomain" },
+   .err ⟨s.nextExc, name, msg⟩ false)
 
 def raiseExc (s : St) (e : Exc) : St × Res := raiseNew s e.name e.msg
 
